@@ -1,7 +1,8 @@
 import SkoolVerif.Prelude.Proto
 import SkoolVerif.Model.Edges
 import SkoolVerif.Model.TapeFiles
-open Proto Edges TapeFiles
+import SkoolVerif.Model.TzxFile
+open Proto Edges TapeFiles TzxFile
 
 /-! Line protocol for C11.
 `edges <first_edge> <polarity> B <block> B <block> …` where `<block>` is
@@ -152,6 +153,26 @@ def handlePpzx (ws : List String) : String :=
     | .error e => showErr e
   | none => "bad-op"
 
+def showTzxErr : TzxErr → String
+  | .index => "err index"
+  | .notTzx => "err nottzx"
+  | .noVersion => "err noversion"
+  | .unknownId id => "err unknown " ++ toString id
+
+def showTzxBlock (nb : Nat × TzxBlock) : String :=
+  let b := nb.2
+  " ".intercalate [toString nb.1, toString b.id, "D " ++ showOptList b.tapeData,
+    match b.timings with | none => "T-" | some t => "T " ++ showTimings t,
+    if b.unsupported then "U1" else "U0", if b.standard then "S1" else "S0", "X " ++ showOptList b.blockData]
+
+def handlePtzx (ws : List String) : String :=
+  match parseOpts ws with
+  | some (start, stop, skip, bs) =>
+    match parseTzx bs start stop skip with
+    | .ok blocks => "ok " ++ " ; ".intercalate (blocks.map showTzxBlock)
+    | .error e => showTzxErr e
+  | none => "bad-op"
+
 def handle (line : String) : String :=
   match words line with
   | "edges" :: rest => handleEdges rest
@@ -159,6 +180,7 @@ def handle (line : String) : String :=
   | "wpzx" :: rest => handleWpzx rest
   | "ptap" :: rest => handlePtap rest
   | "ppzx" :: rest => handlePpzx rest
+  | "ptzx" :: rest => handlePtzx rest
   | _ => "bad-op"
 
 def main : IO Unit := loop handle
